@@ -13,7 +13,7 @@ use serde::Deserialize;
 use serde_json::{json, Value};
 use unic_locale::LanguageIdentifier;
 
-pub const RULE: &str = "Domain: (a) LanguageIdentifier values reached by parsing, from_parts and mutation histories (the ids and tlangs of the C04 value pools); (b) input strings: every token sequence of 1-3 | 1-4 subtags over the 51-token language-id boundary alphabet (exhaustive), proptest well-formed ids with case/separator masks, 1-3-edit near misses, weighted raw bytes that are valid UTF-8, arbitrary Unicode strings, the CLDR corpus - each encoded as JSON three ways (serde_json's own escaping, every char as \\uXXXX with surrogate pairs, Value::String) and read through from_str, from_slice, from_reader, from_value and serde's in-memory str / String / Cow deserialisers; (c) non-string documents from a recursive proptest strategy (null, bools, integers, floats, arrays, objects, a string nested in an array / object), as text, as Value and through serde's primitive deserialisers, plus truncated / garbage JSON text. Oracle: to_string(&v) == '\"' + canonical string + '\"' (canonical string from the independent canonicaliser over the getters and from Display), to_value == Value::String(same), from_str(to_string(&v)) == v; for every string s each reader succeeds iff s.parse::<LanguageIdentifier>() succeeds (and iff the reference recogniser accepts), with == values; every non-string document is an Err, never a panic. Non-trivial = value with >= 2 subtags; string with >= 2 subtags whose first subtag is a language or that is accepted; every non-string document. Distinct by construction for enumerations, hash set otherwise.";
+pub const RULE: &str = "Domain: (a) LanguageIdentifier values reached by parsing, from_parts and mutation histories (the ids and tlangs of the C04 value pools); (b) input strings: every token sequence of 1-3 | 1-4 subtags over the 51-token language-id boundary alphabet (exhaustive), proptest well-formed ids with case/separator masks, 1-3-edit near misses, weighted raw bytes that are valid UTF-8, arbitrary Unicode strings, the CLDR corpus - each encoded as JSON three ways (serde_json's own escaping, every char as \\uXXXX with surrogate pairs, Value::String) and read through from_str, from_slice, from_reader, from_value, serde's in-memory str / String / Cow deserialisers and a hand-written one-string probe format that reports is_human_readable() = true and = false (visit_str / visit_borrowed_str / visit_string); every value and string is also processed right after a neighbour one character / subtag away (hidden state); (c) non-string documents from a recursive proptest strategy (null, bools, integers, floats, arrays, objects, a string nested in an array / object), as text, as Value and through serde's primitive deserialisers, plus truncated / garbage JSON text. Oracle: to_string(&v) == '\"' + canonical string + '\"' (canonical string from the independent canonicaliser over the getters and from Display), to_value == Value::String(same), from_str(to_string(&v)) == v; for every string s each reader succeeds iff s.parse::<LanguageIdentifier>() succeeds (and iff the reference recogniser accepts), with == values; every non-string document is an Err, never a panic. Non-trivial = value with >= 2 subtags; string with >= 2 subtags whose first subtag is a language or that is accepted; every non-string document. Distinct by construction for enumerations, hash set otherwise.";
 
 fn unicode_escape(s: &str) -> String {
     let mut out = String::from("\"");
@@ -22,6 +22,161 @@ fn unicode_escape(s: &str) -> String {
     }
     out.push('"');
     out
+}
+
+
+// ------------------------------------------------------------------------------------------
+// A second, hand-written serde data format ("probe"): one string, nothing else, with a
+// configurable is_human_readable() answer. serde_json and serde's value deserialisers all
+// report human-readable = true; compact binary formats report false, and the property
+// quantifies over "the serde feature", not over serde_json.
+
+pub type PErr = serde::de::value::Error;
+
+pub struct ProbeSer {
+    pub human: bool,
+}
+
+fn not_str<T>() -> Result<T, PErr> {
+    Err(<PErr as serde::ser::Error>::custom("probe format: not a string"))
+}
+
+impl serde::Serializer for ProbeSer {
+    type Ok = String;
+    type Error = PErr;
+    type SerializeSeq = serde::ser::Impossible<String, PErr>;
+    type SerializeTuple = serde::ser::Impossible<String, PErr>;
+    type SerializeTupleStruct = serde::ser::Impossible<String, PErr>;
+    type SerializeTupleVariant = serde::ser::Impossible<String, PErr>;
+    type SerializeMap = serde::ser::Impossible<String, PErr>;
+    type SerializeStruct = serde::ser::Impossible<String, PErr>;
+    type SerializeStructVariant = serde::ser::Impossible<String, PErr>;
+    fn is_human_readable(&self) -> bool {
+        self.human
+    }
+    fn serialize_str(self, v: &str) -> Result<String, PErr> {
+        Ok(v.to_string())
+    }
+    fn serialize_bool(self, _: bool) -> Result<String, PErr> { not_str() }
+    fn serialize_i8(self, _: i8) -> Result<String, PErr> { not_str() }
+    fn serialize_i16(self, _: i16) -> Result<String, PErr> { not_str() }
+    fn serialize_i32(self, _: i32) -> Result<String, PErr> { not_str() }
+    fn serialize_i64(self, _: i64) -> Result<String, PErr> { not_str() }
+    fn serialize_u8(self, _: u8) -> Result<String, PErr> { not_str() }
+    fn serialize_u16(self, _: u16) -> Result<String, PErr> { not_str() }
+    fn serialize_u32(self, _: u32) -> Result<String, PErr> { not_str() }
+    fn serialize_u64(self, _: u64) -> Result<String, PErr> { not_str() }
+    fn serialize_f32(self, _: f32) -> Result<String, PErr> { not_str() }
+    fn serialize_f64(self, _: f64) -> Result<String, PErr> { not_str() }
+    fn serialize_char(self, _: char) -> Result<String, PErr> { not_str() }
+    fn serialize_bytes(self, _: &[u8]) -> Result<String, PErr> { not_str() }
+    fn serialize_none(self) -> Result<String, PErr> { not_str() }
+    fn serialize_some<T: ?Sized + serde::Serialize>(self, _: &T) -> Result<String, PErr> { not_str() }
+    fn serialize_unit(self) -> Result<String, PErr> { not_str() }
+    fn serialize_unit_struct(self, _: &'static str) -> Result<String, PErr> { not_str() }
+    fn serialize_unit_variant(self, _: &'static str, _: u32, _: &'static str) -> Result<String, PErr> { not_str() }
+    fn serialize_newtype_struct<T: ?Sized + serde::Serialize>(self, _: &'static str, _: &T) -> Result<String, PErr> { not_str() }
+    fn serialize_newtype_variant<T: ?Sized + serde::Serialize>(self, _: &'static str, _: u32, _: &'static str, _: &T) -> Result<String, PErr> { not_str() }
+    fn serialize_seq(self, _: Option<usize>) -> Result<Self::SerializeSeq, PErr> { not_str() }
+    fn serialize_tuple(self, _: usize) -> Result<Self::SerializeTuple, PErr> { not_str() }
+    fn serialize_tuple_struct(self, _: &'static str, _: usize) -> Result<Self::SerializeTupleStruct, PErr> { not_str() }
+    fn serialize_tuple_variant(self, _: &'static str, _: u32, _: &'static str, _: usize) -> Result<Self::SerializeTupleVariant, PErr> { not_str() }
+    fn serialize_map(self, _: Option<usize>) -> Result<Self::SerializeMap, PErr> { not_str() }
+    fn serialize_struct(self, _: &'static str, _: usize) -> Result<Self::SerializeStruct, PErr> { not_str() }
+    fn serialize_struct_variant(self, _: &'static str, _: u32, _: &'static str, _: usize) -> Result<Self::SerializeStructVariant, PErr> { not_str() }
+}
+
+/// hands one string to the visitor: mode 0 visit_str (transient), 1 visit_borrowed_str, 2 visit_string
+pub struct ProbeDe<'de> {
+    pub s: &'de str,
+    pub human: bool,
+    pub mode: u8,
+}
+
+impl<'de> serde::Deserializer<'de> for ProbeDe<'de> {
+    type Error = PErr;
+    fn is_human_readable(&self) -> bool {
+        self.human
+    }
+    fn deserialize_any<V: serde::de::Visitor<'de>>(self, visitor: V) -> Result<V::Value, PErr> {
+        match self.mode {
+            0 => {
+                let copy = self.s.to_string();
+                visitor.visit_str(&copy)
+            }
+            1 => visitor.visit_borrowed_str(self.s),
+            _ => visitor.visit_string(self.s.to_string()),
+        }
+    }
+    serde::forward_to_deserialize_any! {
+        bool i8 i16 i32 i64 i128 u8 u16 u32 u64 u128 f32 f64 char str string bytes byte_buf option unit
+        unit_struct newtype_struct seq tuple tuple_struct map struct enum identifier ignored_any
+    }
+}
+
+fn bump(c: u8) -> u8 {
+    match c {
+        b'a'..=b'y' | b'A'..=b'Y' | b'0'..=b'8' => c + 1,
+        b'z' => b'a',
+        b'Z' => b'A',
+        b'9' => b'0',
+        _ => c,
+    }
+}
+
+/// strings one character away from `s` (last / first alphanumeric character of a subtag bumped):
+/// what a cache with an incomplete key would confuse with `s`
+pub fn neighbour_strings(s: &str) -> Vec<String> {
+    let b = s.as_bytes();
+    let mut out = vec![];
+    let mut ends = vec![];
+    for i in 0..b.len() {
+        if b[i].is_ascii_alphanumeric() && (i + 1 == b.len() || !b[i + 1].is_ascii_alphanumeric()) {
+            ends.push(i);
+        }
+    }
+    for &i in ends.iter().rev().take(3).chain(ends.first()) {
+        let mut c = b.to_vec();
+        c[i] = bump(c[i]);
+        if let Ok(t) = String::from_utf8(c) {
+            if t != s && !out.contains(&t) {
+                out.push(t);
+            }
+        }
+    }
+    out
+}
+
+/// values one subtag away from `li`: same language / script / region with every variant's last
+/// character bumped (same count), and the region / script / language bumped in turn
+pub fn neighbour_values(li: &LanguageIdentifier) -> Vec<LanguageIdentifier> {
+    neighbour_strings(&li.to_string()).iter().filter_map(|t| t.parse().ok()).chain({
+        let vs: Vec<String> = li.variants().map(|v| v.as_str().to_string()).collect();
+        let all: Option<String> = if vs.is_empty() {
+            None
+        } else {
+            let mut t = String::new();
+            t.push_str(li.language.as_str());
+            if let Some(s) = li.script {
+                t.push('-');
+                t.push_str(s.as_str());
+            }
+            if let Some(r) = li.region {
+                t.push('-');
+                t.push_str(r.as_str());
+            }
+            for v in &vs {
+                let mut vb = v.clone().into_bytes();
+                let k = vb.len() - 1;
+                vb[k] = bump(vb[k]);
+                t.push('-');
+                t.push_str(&String::from_utf8_lossy(&vb));
+            }
+            Some(t)
+        };
+        all.and_then(|t| t.parse::<LanguageIdentifier>().ok())
+    })
+    .collect()
 }
 
 type R = Result<LanguageIdentifier, String>;
@@ -48,6 +203,11 @@ fn readers(s: &str) -> Vec<(&'static str, R)> {
         ("StringDeserializer", ve(LanguageIdentifier::deserialize(od))),
         ("CowStrDeserializer", ve(LanguageIdentifier::deserialize(cd))),
         ("BorrowedStrDeserializer", ve(LanguageIdentifier::deserialize(bd))),
+        ("probe(human-readable, visit_str)", ve(LanguageIdentifier::deserialize(ProbeDe { s, human: true, mode: 0 }))),
+        ("probe(human-readable, visit_string)", ve(LanguageIdentifier::deserialize(ProbeDe { s, human: true, mode: 2 }))),
+        ("probe(NOT human-readable, visit_str)", ve(LanguageIdentifier::deserialize(ProbeDe { s, human: false, mode: 0 }))),
+        ("probe(NOT human-readable, visit_borrowed_str)", ve(LanguageIdentifier::deserialize(ProbeDe { s, human: false, mode: 1 }))),
+        ("probe(NOT human-readable, visit_string)", ve(LanguageIdentifier::deserialize(ProbeDe { s, human: false, mode: 2 }))),
     ]
 }
 
@@ -81,6 +241,32 @@ pub fn check_string(s: &str, st: &mut Stats, mode: Count) {
             (Ok(a), Err(e)) => st.fail(format!("string:rejects-parseable:{name}"), case(), s.len(), format!("{name} -> Err({e}), parsing gives {a}")),
             (Err(e), Ok(b)) => st.fail(format!("string:accepts-unparseable:{name}"), case(), s.len(), format!("{name} -> Ok({b}), parsing gives Err({e:?})")),
         }
+    }
+    // hidden state: reading a string one character away right before must not change the answer
+    let seq = guard(|| {
+        let mut bad = vec![];
+        for nb in neighbour_strings(s) {
+            let _ = serde_json::from_value::<LanguageIdentifier>(Value::String(nb.clone()));
+            let _ = LanguageIdentifier::deserialize(ProbeDe { s: &nb, human: false, mode: 0 });
+            let again: Result<LanguageIdentifier, String> = serde_json::from_value(Value::String(s.to_string())).map_err(|e| e.to_string());
+            let again2: Result<LanguageIdentifier, String> = LanguageIdentifier::deserialize(ProbeDe { s, human: false, mode: 0 }).map_err(|e| e.to_string());
+            for a in [again, again2] {
+                let same = match (&parsed, &a) {
+                    (Ok(x), Ok(y)) => x == y && x.to_string() == y.to_string(),
+                    (Err(_), Err(_)) => true,
+                    _ => false,
+                };
+                if !same {
+                    bad.push(format!("after reading {nb:?}: {a:?}"));
+                }
+            }
+        }
+        bad
+    });
+    match seq {
+        Err(p) => st.fail(format!("string:sequence:{}", panic_sig(&p)), case(), s.len(), format!("panicked: {p:?}")),
+        Ok(bad) if !bad.is_empty() => st.fail("string:answer-depends-on-earlier-reads", case(), s.len(), format!("parsing gives {:?}; {}", parsed.as_ref().map(|v| v.to_string()), bad[0])),
+        Ok(_) => {}
     }
     // deserialize_in_place on a target that already holds a value with variants: the target
     // must end up equal to the parsed value (on success)
@@ -159,6 +345,47 @@ pub fn check_value(li: &LanguageIdentifier, case: &Value, st: &mut Stats, mode: 
     }
     if val != Value::String(canon.clone()) {
         st.fail("value:to_value-not-the-canonical-string", case.clone(), size, format!("to_value gives {val}, expected string {canon}"));
+    }
+    // the hand-written probe format, human-readable and not
+    for human in [true, false] {
+        match guard(|| serde::Serialize::serialize(li, ProbeSer { human })) {
+            Err(p) => st.fail(format!("value:probe:{}", panic_sig(&p)), case.clone(), size, format!("panicked: {p:?}")),
+            Ok(Ok(t)) if t == canon => {}
+            Ok(other) => st.fail(format!("value:not-the-canonical-string:probe-format(human_readable={human})"), case.clone(), size, format!("serialises to {other:?}, canonical string is {canon:?}")),
+        }
+        match guard(|| LanguageIdentifier::deserialize(ProbeDe { s: &canon, human, mode: 0 })) {
+            Ok(Ok(b)) if b == *li && b.to_string() == li.to_string() => {}
+            other => st.fail(format!("value:roundtrip-differs:probe-format(human_readable={human})"), case.clone(), size, format!("{li} -> {canon:?} -> {:?}", other.map(|r| r.map(|v| v.to_string()).map_err(|e| e.to_string())).map_err(|p| p.msg))),
+        }
+    }
+    // hidden state: serialising / reading a value one subtag away right before must not matter
+    {
+        let r = guard(|| {
+            let mut bad = vec![];
+            for nb in neighbour_values(li) {
+                let nt = serde_json::to_string(&nb).unwrap_or_default();
+                let t = serde_json::to_string(li).unwrap_or_default();
+                if t != want {
+                    bad.push(format!("after serialising {nb}: {li} -> {t}"));
+                }
+                let _ = serde_json::from_str::<LanguageIdentifier>(&nt);
+                match serde_json::from_str::<LanguageIdentifier>(&want) {
+                    Ok(b) if b == *li => {}
+                    other => bad.push(format!("after reading {nt}: {want} -> {:?}", other.map(|v| v.to_string()).map_err(|e| e.to_string()))),
+                }
+                let both = serde_json::to_string(&[nb.clone(), li.clone(), nb.clone()]).unwrap_or_default();
+                let want3 = format!("[{nt},{want},{nt}]");
+                if both != want3 {
+                    bad.push(format!("as a sequence: {both} instead of {want3}"));
+                }
+            }
+            bad
+        });
+        match r {
+            Err(p) => st.fail(format!("value:sequence:{}", panic_sig(&p)), case.clone(), size, format!("panicked: {p:?}")),
+            Ok(bad) if !bad.is_empty() => st.fail("value:answer-depends-on-earlier-calls", case.clone(), size, bad[0].clone()),
+            Ok(_) => {}
+        }
     }
     // a serialisation that fails half-way (writer runs out of room) must not affect later ones
     {
